@@ -901,7 +901,25 @@ def strategy_model(rs):
             lo = 1
         return True, lo, hi
 
-    return {"max_attempts": p["max_attempts"], "decide": decide, "packaged": True, "max_delay": p["max"]}
+    def exact(n, draws):
+        """The delay the configured backoff and jitter give for the one uniform draw the strategy made (the
+        simulator owns `random`): full jitter = random(0, base), equal jitter = base/2 + random(0, base/2),
+        rounded up, at least 1 s. Returns the set of acceptable integers (a float ulp may flip the ceiling), or
+        None when the number of draws is not the one this reading needs."""
+        base = min(p["initial"] * (p["rate"] ** (n - 1)), p["max"])
+        if p["jitter"] == "NONE":
+            if draws:
+                return None
+            x = base
+        elif len(draws) != 1:
+            return None
+        elif p["jitter"] == "HALF":
+            x = base / 2 + draws[0] * (base / 2)
+        else:
+            x = draws[0] * base
+        return {max(1, math.ceil(x)), max(1, math.ceil(x - 1e-9)), max(1, math.ceil(x + 1e-9))}
+
+    return {"max_attempts": p["max_attempts"], "decide": decide, "packaged": True, "max_delay": p["max"], "exact": exact}
 
 
 def _is_instance(cls, types):
@@ -1004,6 +1022,12 @@ def check_c12(ix, cfg):
                 elif r and not (lo <= s_ev["delay"] <= hi):
                     out.append(V("C12", "packaged-strategy-delay", f"{pos}: packaged strategy delay {s_ev['delay']} outside [{lo},{hi}] for "
                                  f"attempt {s_ev['attempts_made']}", pos=pos, seq=s_ev["s"]))
+                elif r and s_ev.get("draws") is not None:
+                    ok = model["exact"](s_ev["attempts_made"], s_ev["draws"])
+                    if ok is not None and s_ev["delay"] not in ok:
+                        out.append(V("C12", "packaged-strategy-jitter", f"{pos}: packaged strategy delay {s_ev['delay']} for attempt "
+                                     f"{s_ev['attempts_made']} with uniform draw(s) {s_ev['draws']}: the configured backoff and jitter "
+                                     f"give {sorted(ok)}", pos=pos, seq=s_ev["s"]))
     return out
 
 
